@@ -592,3 +592,9 @@ def check(run, prog, tier):
     run.rule("C01-n", "every subscript whose index has the form `V - 1` (V a variable, a member such as ->size, or strlen(..)) is reached only with V known to be positive (dominating test, or a single assignment from an expression that is at least 1): on an empty string or array the access lands in front of the object", 10)
     import rules.C01n as c01n
     c01n.check(run, prog)
+
+    # ---- C01-o values borrowed from apply_ret_value are not used after the next apply
+    run.rule("C01-o", "a pointer obtained from the apply family (it points to the single global apply_ret_value) or from check_valid_path(), and every pointer derived from it, is not dereferenced or handed on after a call that may store a new apply result: that store releases the old value", 20)
+    import rules.C01o as c01o
+    import callgraph as _cgm
+    c01o.check(run, prog, _cgm.CallGraph(prog))
